@@ -596,14 +596,37 @@ func ruleTableNanInf(p *Prog, r *Report) {
 				r.Unknown(rule, p.Name(ch.h), construct, p.Pos(c.Pos()), "ParseFloat is not applied to the helper's input parameter")
 				return
 			}
+			// what the helper itself excludes before it returns the float counts as well
+			hin := p.nanInfExcluded(ch.h, ch.prm, flag, 1)
+			res := resultsOf(c)
+			var retBlks []*ssa.BasicBlock
+			eachInstr(ch.h, func(b2 *ssa.BasicBlock, i3 ssa.Instruction) {
+				if ret, ok := i3.(*ssa.Return); ok && len(ret.Results) > 0 {
+					if mi, ok := ret.Results[0].(*ssa.MakeInterface); ok && res[0] != nil && mi.X == res[0] {
+						retBlks = append(retBlks, b2)
+					}
+				}
+			})
+			if len(retBlks) == 0 {
+				retBlks = []*ssa.BasicBlock{c.Block()}
+			}
 			var missing []string
 			for _, sp := range nanInfSpellings {
-				if !in[ch.site.Block()][sp] {
+				if in[ch.site.Block()][sp] {
+					continue
+				}
+				all := true
+				for _, rb := range retBlks {
+					if !hin[rb][sp] {
+						all = false
+					}
+				}
+				if !all {
 					missing = append(missing, sp)
 				}
 			}
 			if len(missing) == 0 {
-				r.OK(rule, p.Name(ch.h), construct, p.Pos(c.Pos()), "the helper is called (at "+p.Pos(ch.site.Pos())+") only where the case-folded input was compared unequal to all 7 spellings strconv.ParseFloat accepts, or castNanInf is on")
+				r.OK(rule, p.Name(ch.h), construct, p.Pos(c.Pos()), "the helper is called (at "+p.Pos(ch.site.Pos())+") only where — or itself returns the float only after — the case-folded input was compared unequal to all 7 spellings strconv.ParseFloat accepts, or castNanInf is on")
 			} else {
 				r.Bad(rule, p.Name(ch.h), construct, p.Pos(c.Pos()), "with CastNanInf off these spellings still reach strconv.ParseFloat (through the call at "+p.Pos(ch.site.Pos())+") and are returned as NaN/Inf: "+strings.Join(missing, ", "))
 			}
@@ -695,7 +718,30 @@ func ruleTableKeys(p *Prog, r *Report) {
 			r.Anchor(rule, pair[0]+"/"+pair[1])
 			continue
 		}
-		if l[g][f] {
+		reads := l[g][f]
+		if !reads {
+			// through an unexported helper the function calls (two levels)
+			var via func(fn *ssa.Function, d int) bool
+			via = func(fn *ssa.Function, d int) bool {
+				found := false
+				eachInstr(fn, func(b *ssa.BasicBlock, in ssa.Instruction) {
+					c, ok := in.(ssa.CallInstruction)
+					if !ok || found {
+						return
+					}
+					h := staticCallee(c.Common())
+					if h == nil || h == fn || !p.InModule(h) || p.Exported(h) {
+						return
+					}
+					if l[g][h] || d < 2 && via(h, d+1) {
+						found = true
+					}
+				})
+				return found
+			}
+			reads = via(f, 1)
+		}
+		if reads {
 			r.OK(rule, pair[1], "reads "+pair[0], p.Pos(f.Pos()), "shared key variable used")
 		} else {
 			r.Bad(rule, pair[1], "reads "+pair[0], p.Pos(f.Pos()), "this half of the codec does not read the shared key variable")
